@@ -124,6 +124,29 @@ def same_simulator_case(rng, cls):
             (qc.rz(op[2] * W.UNIT, op[1]) if k == "rz" else qc.sx(op[1]) if k == "sx" else qc.x(op[1]) if k == "x" else qc.measure(op[1], op[2]))
         return qc
     steps.append(("fourth (the first circuit object edited in place: read-out removed, gates appended, read out again)", opsD, edited_in_place))
+
+    # fifth: the same object edited in place WITHOUT changing its length: one rz angle / one sx <-> x replaced through circuit.data
+    # (an angle sweep on one circuit object), and the first measurement re-targeted to another clbit-preserving qubit when there is one
+    opsE = [list(op) for op in opsD]
+    idx = [i for i, op in enumerate(opsE) if op[0] in ("rz", "sx", "x")]
+
+    def edited_same_length():
+        from qiskit.circuit.library import RZGate, SXGate, XGate
+        qc = qcs[0]
+        for i in (idx[:2] if idx else []):
+            op = opsE[i]
+            if op[0] == "rz":
+                op[2] = op[2] + 45
+                new = RZGate(op[2] * W.UNIT)
+            elif op[0] == "sx":
+                op[0] = "x"; new = XGate()
+            else:
+                op[0] = "sx"; new = SXGate()
+            # position of this op inside circuit.data: ops and data are in the same order (measure ops included)
+            qc.data[i] = qc.data[i].replace(operation=new)
+        return qc
+    if idx:
+        steps.append(("fifth (the same circuit object edited in place, same number of instructions: an rz angle / sx <-> x replaced)", opsE, edited_same_length))
     for tag, ops, mk in steps:
         qc = mk()
         try:
@@ -214,8 +237,17 @@ def main(ctx):
             n = rng.randint(1, 7 if ctx.thorough else 5)
             ops, labels = W.random_ops(rng, cls, n, rng.randint(0, 16))
             cs.append((cls, ops, labels, n))
+    # one long register (17 qubits, beyond two bytes of basis index; thorough: also 18) on the index-based class, few gates
+    for nbig in ([17, 18] if ctx.thorough else [17]):
+        ops, labels = W.random_ops(rng, "binary", nbig, 5)
+        ops = [op for op in ops if op[0] != "measure"]
+        mq = rng.sample(labels, 3)
+        if labels[-1] not in mq:
+            mq[0] = labels[-1]
+        ops += [["measure", q, c] for c, q in enumerate(mq)]
+        cs.append(("binary", ops, labels, nbig))
     for i, (cls, ops, labels, n) in enumerate(cs):
-        psi0 = random_psi0(rng, n, entangled=(i % 3 == 2))
+        psi0 = random_psi0(rng, n, entangled=(i % 3 == 2 and n <= 10))
         shots = 1 + (i % 3)
         bad, r = run_case(cls, ops, labels, n, psi0, shots=shots)
         ctx.count()
@@ -275,6 +307,34 @@ def main(ctx):
                                f"circuit gives {want[k]:.6f}")
             if bad:
                 fails.append((cls, ops, labels, n, [complex(x) for x in psi0], bad, {"parallel": sm}))
+    # the interpreter's optimisation switch (python -O / PYTHONOPTIMIZE strips assert statements): a noise-free sequential run of
+    # every layered class in such an interpreter returns the ideal distribution too
+    o_reqs = []
+    for cls in (CLASSES if ctx.thorough else ["standard", "one", "binary"]):
+        n = rng.randint(2, 3)
+        ops, labels = W.random_ops(rng, cls, n, rng.randint(4, 8))
+        if not any(op[0] in ("sx", "x", "cx", "ecr") for op in ops):
+            ops.insert(0, ["sx", labels[0]])
+        o_reqs.append((cls, ops, labels, n, random_psi0(rng, n)))
+    rc, so, se = core.run_repo_python(["-O", "-c", "from qgv.c03_parallel import cli; cli()"],
+                                      {"start_method": None, "cases": [{"cls": c, "ops": o, "n": n, "psi0": [[z.real, z.imag] for z in p], "shots": 1,
+                                                                        "sequential": True} for c, o, l, n, p in o_reqs]}, timeout=900)
+    if rc != 0:
+        raise RuntimeError(f"python -O case runner failed rc={rc}: {se[-800:]}")
+    for (cls, ops, labels, n, psi0), o in zip(o_reqs, json.loads(so)):
+        ctx.count()
+        hist["python -O"] = hist.get("python -O", 0) + 1
+        bad = None
+        if "err" in o or "internal_error" in o:
+            bad = f"run under `python -O` of a valid circuit raised {o.get('err') or o.get('internal_error')}"
+        else:
+            want, got = ideal_probs(ops, labels, psi0), o["result"]
+            if set(want) != set(got) or max(abs(want[k] - got[k]) for k in want) > 1e-9:
+                k = max(want, key=lambda k: abs(want[k] - got.get(k, 0.0)))
+                bad = (f"run in an interpreter started with -O (assert statements stripped): probability of outcome {k!r} is "
+                       f"{got.get(k, float('nan')):.6f}, the ideal circuit gives {want[k]:.6f}")
+        if bad:
+            fails.append((cls, ops, labels, n, [complex(x) for x in psi0], bad, {"parallel": "python -O"}))
     for _ in range(12 if ctx.thorough else 4):
         ops, bad = fix_counts_case(rng, rng.randint(1, 4)); ctx.count()
         if bad:
@@ -345,9 +405,11 @@ def replay(ctx, path):
         print("replay without a single-run input:", json.dumps(rp)[:500]); return 1
     psi0 = np.array([complex(a, b) for a, b in rp["psi0"]])
     if rp.get("parallel"):
-        rc, so, se = core.run_repo_python(["-c", "from qgv.c03_parallel import cli; cli()"],
-                                          {"start_method": rp["parallel"], "cases": [{"cls": rp["cls"], "ops": rp["ops"], "n": rp["nqubit"],
-                                                                                      "psi0": rp["psi0"], "shots": 3, "cpu": 3}]}, timeout=900)
+        optimise = rp["parallel"] == "python -O"
+        rc, so, se = core.run_repo_python((["-O"] if optimise else []) + ["-c", "from qgv.c03_parallel import cli; cli()"],
+                                          {"start_method": None if optimise else rp["parallel"],
+                                           "cases": [{"cls": rp["cls"], "ops": rp["ops"], "n": rp["nqubit"], "psi0": rp["psi0"],
+                                                      "shots": 1 if optimise else 3, "cpu": 3, "sequential": optimise}]}, timeout=900)
         o = json.loads(so)[0] if rc == 0 else {"err": se[-300:]}
         want = ideal_probs(rp["ops"], rp["labels"], psi0)
         got = o.get("result", {})
